@@ -61,7 +61,7 @@ def plan(tier, seed):
         for position in ('middle', 'first', 'last'):
             items, target = tripeptide(rtype, position)
             n = len(target)
-            full = n <= 9 or tier == 'thorough'
+            full = n <= 9 or (tier == 'thorough' and (position == 'middle' or n <= 11))
             if position != 'middle' and tier == 'quick' and rtype not in ('ASP', 'HIS', 'GLY', 'LYS', 'CYS'):
                 continue
             if full:
@@ -82,7 +82,7 @@ def plan(tier, seed):
     return dict(shards=shards, exhaustive=True,
                 rule=('all atom subsets of one residue in a tripeptide (middle position: 20 types; first / last-with-OXT: 5 types quick, 20 '
                       'thorough; residues with more than 9 atoms: all deletions of <= 3 (<= 2 for > 11 atoms) atoms in the quick tier, all '
-                      'subsets in the thorough tier); all deletions of <= 2 atoms and of each whole residue in 8 A cut-outs; all subsets of '
+                      'subsets in the thorough tier for the middle position and for residues of <= 11 atoms at the termini); all deletions of <= 2 atoms and of each whole residue in 8 A cut-outs; all subsets of '
                       'the side-chain / ligand atoms of partner A in docked pairs (10x5 kinds); rejection cases. non-trivial = distinct '
                       'truncated inputs that still contain at least one ionizable group by the reference census'),
                 bounds=dict(shards=len(shards)), samples=[dict(rtype='ASP', position='middle', removed=['CG', 'OD1'])])
